@@ -258,7 +258,7 @@ impl Monitor for C14 {
         "C14"
     }
     fn plan(&self, cfg: &Cfg) -> u64 {
-        (OPS.len() * SCALARS.len()) as u64 * cfg.tier.pick(60, 40_000)
+        (OPS.len() * SCALARS.len()) as u64 * cfg.tier.pick(60, 160_000)
     }
     fn trial(&self, cfg: &Cfg, idx: u64, out: &mut TrialOut) {
         let combos = (OPS.len() * SCALARS.len()) as u64;
